@@ -21,7 +21,12 @@ CLAIM = dict(
          "set of nodes / ordered neighbour pairs enabled by the current statuses, with the right weights) holds initially (C03_simple_inv_initial) and after every event (C03_simple_inv_step); "
          "under it one jump selects (transition, actor) with probability rate*weight/total, nothing outside the enabled set has positive mass, "
          "the waiting-time rate is the total rate, the loop stops iff total = 0 or t >= tmax, counts track statuses, and EoNError is raised iff "
-         "the specification is malformed.  Tie: trace-level correspondence of the extracted model with /repo on random and exhaustively "
+         "the specification is malformed.  Exec level (coq/Props/C03x.v): for EVERY draw script the scripted run of the model is set-up + a sequence of steps + the stop rule; "
+         "it never ends in a Python-level error (plain mode, or return_statuses covering); every loop head satisfies the invariant; every waiting time is drawn with the total rate "
+         "of the enabled transitions, the cascade is run against the rate shares and choose_random is offered exactly the enabled actors; every event is one enabled transition "
+         "(status edge of H at the node / edge of J at an actual (neighbour, node) pair along the edge direction) with positive rate; the weights in use stay the specification's; "
+         "the one-step law rate*weight/total holds at every loop head of every run; rows, histories and transmissions are projections of one chronological log; fuel never runs "
+         "out on a script no longer than the fuel.  Tie: trace-level correspondence of the extracted model with /repo on random and exhaustively "
          "enumerated draw scripts over SIS, SIR, SIRS, SEIR, competing/cooperating diseases, vaccination and random 2-4 status specifications, "
          "directed and undirected graphs, weight labels and rate functions, string/tuple/unorderable statuses, both return modes.",
     design='DESIGN.md section 4, C03; Appendix A.3',
@@ -98,6 +103,7 @@ def run(run, tier):
     res.mism = [x for x in res.mism if not is_default_alias(x[2])]
     res.oracle_bad = [x for x in res.oracle_bad if not is_default_alias(x[3])]
     SC.report(run, PID, L.ENTRY, res, 'Model/Simple.v', 'Props/C03.v')
+    C.extra_props(run, 'C03', props, ['C03x'])
     if not props['ok']:
         run.violation('C03/proof', 'Props/C03.v no longer checks: %s' % props['log'][-400:], {'broken': 'coq/Props/C03.v', 'log': props['log']}, no_input=True)
     shapes = {}
